@@ -79,6 +79,10 @@ def enumerate_faults(data: bytes) -> list[dict]:
         if refpkg.rels_name_for(n) in pkg.members:
             out.append({"fault": "drop_rels_item", "part": n})
         out.append({"fault": "unknown_ctype", "part": n})
+        if n != "/ppt/presentation.xml":
+            # the PART NAME differs in case from its content-type declaration (the declaration keeps the old spelling)
+            out.append({"fault": "case_flip_partname", "part": n, "mode": "ext-upper"})
+            out.append({"fault": "case_flip_partname", "part": n, "mode": "swap"})
     ct = refpkg.parse(pkg.members["/[Content_Types].xml"])
     k = 0
     for el in ct:
@@ -88,8 +92,10 @@ def enumerate_faults(data: bytes) -> list[dict]:
             k += 1
     for variant in range(4):
         out.append({"fault": "extra_member", "variant": variant})
-    for mode in ("reverse", "rotate", "gaps", "shuffle", "lastfits", "firstbig"):
+    for mode in ("reverse", "rotate", "gaps", "shuffle", "lastfits", "firstbig", "midnext", "midnext2"):
         out.append({"fault": "rename_slides", "mode": mode, "seed": 3})
+    for v in range(3):
+        out.append({"fault": "path_arg", "variant": v})
     out.append({"fault": "remove_core_props", "how": "member"})
     out.append({"fault": "remove_core_props", "how": "member+rel"})
     for b in zip_boundaries(data):
@@ -140,6 +146,8 @@ def _rels_edit(members, source, fn):
 def apply_fault(data: bytes, x: dict) -> bytes:
     """Apply one stored-state fault. If its location no longer exists the bytes are returned unchanged."""
     f = x["fault"]
+    if f == "path_arg":
+        return data
     if f == "truncate":
         return data[: x["at"]]
     if f == "non_zip":
@@ -181,6 +189,21 @@ def apply_fault(data: bytes, x: dict) -> bytes:
                 o.set("PartName", part)
                 o.set("ContentType", "application/x-unknown")
         members = _ct_edit(members, fn)
+    elif f == "case_flip_partname":
+        part = x["part"]
+        if ("/" + "\n".join(n for n, _ in members)).find(part[1:]) < 0:
+            return data
+        d_, _, base_ = part.rpartition("/")
+        stem, dot, ext = base_.rpartition(".")
+        new_name = (d_ + "/" + (stem + dot + ext.upper() if dot else base_.upper())) if x["mode"] == "ext-upper" else d_ + "/" + base_.swapcase()
+        if new_name == part or any(("/" + n).lower() == new_name.lower() and "/" + n != part for n, _ in members):
+            return data
+        ct = dict(members).get("[Content_Types].xml")
+        try:
+            data2 = pkgxform.rename_parts(data, {part: new_name})
+        except Exception:  # noqa: BLE001
+            return data
+        members = [(n, ct if n == "[Content_Types].xml" else b) for n, b in pkgxform.read_members(data2)]
     elif f == "case_flip_ct":
         def fn(root):
             els = [el for el in root if isinstance(el.tag, str)]
@@ -243,6 +266,11 @@ def apply_fault(data: bytes, x: dict) -> bytes:
 
 
 # ---- expectation from the faulted bytes (independent reader) ---------------------------------------------------
+
+def SimDisk_scratch():
+    from ..disk import scratch_dir
+    return scratch_dir()
+
 
 def expectation(data: bytes):
     """-> ("refuse", cls_for_path, cls_for_stream, why) | ("open", RefPackage)"""
@@ -364,6 +392,23 @@ def execute(trace: dict, known, collect_log=True) -> dict:
                     res["stats"].hit("fault_noop")
                 data = new
         form = trace.get("form", "stream")
+        pa = [x for x in trace.get("faults", []) if x["fault"] == "path_arg"]
+        if pa:
+            # a path that names no package at all: the empty string, a file that is not there, a directory that is not there
+            v = pa[0]["variant"]
+            arg = ["", os.path.join(SimDisk_scratch(), "no-such-file-%d.pptx" % os.getpid()), os.path.join(SimDisk_scratch(), "no-such-dir-%d" % os.getpid(), "deck.pptx")][v]
+            res["faults"].hit("stored_path_arg")
+            try:
+                pptx.Presentation(arg)
+                got = "opened"
+            except Exception as e:  # noqa: BLE001
+                got = type(e).__name__
+            res["outcomes"].append("refused:%s" % got)
+            res["probes"].hit("refuse_path-names-nothing_%d" % v)
+            log.append({"path_arg": v, "got": got})
+            if got != "PackageNotFoundError":
+                report("refuse|path-names-nothing|path|expected=PackageNotFoundError|got=%s" % got, "argument %r" % (["''", "missing file", "missing directory"][v]), CLAUSES["refuse"])
+            raise _Done()
         exp = expectation(data)
         log.append({"sha": sha(data)[:12], "exp": exp[0], "why": exp[3] if exp[0] == "refuse" else ""})
         disk = SimDisk()
